@@ -131,6 +131,13 @@ def _create_files(  # noqa: C901, PLR0912, PLR0913
         for parent in {fs.parent(dest_path) for dest_path in dest_paths}:
             fs.makedirs(parent, exist_ok=True)
 
+        # whatever is at the destination of a failed transfer is not the entry's data
+        failed: set[str] = set()
+
+        def _onerror(src_path, dest_path, exc, _failed=failed):
+            _failed.add(dest_path)
+            onerror(src_path, dest_path, exc)
+
         transfer(
             src_fs,
             list(src_paths),
@@ -139,7 +146,7 @@ def _create_files(  # noqa: C901, PLR0912, PLR0913
             callback=callback,
             batch_size=jobs,
             links=links,
-            on_error=onerror,
+            on_error=_onerror,
         )
 
         _check_versioning(dest_paths, fs)
@@ -147,7 +154,7 @@ def _create_files(  # noqa: C901, PLR0912, PLR0913
         if state and isinstance(fs, LocalFileSystem):
             _infos: list[tuple[str, HashInfo, dict]] = []
             for entry, _, dest_path in args:
-                if not entry.hash_info:
+                if not entry.hash_info or dest_path in failed:
                     continue
                 try:
                     _infos.append((dest_path, entry.hash_info, fs.info(dest_path)))
@@ -163,7 +170,9 @@ def _create_files(  # noqa: C901, PLR0912, PLR0913
                 cb = TqdmCallback(desc=desc, unit="file")
             with cb:
                 infos = fs.info(list(dest_paths), callback=cb, batch_size=jobs)
-                for entry, info in zip(entries, infos):
+                for entry, dest_path, info in zip(entries, dest_paths, infos):
+                    if dest_path in failed:
+                        continue
                     entry.meta = Meta.from_info(info, fs.protocol)
                     index.add(entry)
 
